@@ -259,6 +259,9 @@ func (sessScenario) Gen(r *Rng, tier string, opts map[string]string) interface{}
 		nm := 1 + r.Intn(5)
 		total := 0
 		for j := 0; j < nm && budget > 0; j++ {
+			if prop == "C11" && r.Chance(1, 4) {
+				sp.C2S.W = append(sp.C2S.W, wOp{K: "wdeadline", N: r.Pick(1, 15, 60, 500)})
+			}
 			op := genMsg(r, p.Cfg, &budget)
 			total += wopBytes(op)
 			sp.C2S.W = append(sp.C2S.W, op)
@@ -572,6 +575,7 @@ type dirState struct {
 	rCallKind     string
 	rDeadline     time.Time
 	rLastLen      int
+	wDeadline     time.Time
 	usedShm       bool // some message of this direction travelled through the shared-memory queue
 	usedFallback  bool // ... through the socket
 }
@@ -635,6 +639,7 @@ type sessWorld struct {
 	crashAt       time.Duration
 	thr           []*thread
 	fdC, fdS      int
+	acceptorG     *simrt.G
 	sockC         *ssys.Sock
 	tap           [2][]byte
 	hsDone        bool
@@ -889,7 +894,7 @@ func (w *sessWorld) main(dir string) {
 		w.sockC.Peer().Tap = func(dir int, b []byte) { w.tap[1] = append(w.tap[1], b...) }
 	}
 	if p.Accept {
-		simrt.GoProc(w.ps, "acceptor", func() {
+		w.acceptorG = simrt.GoProc(w.ps, "acceptor", func() {
 			simrt.MarkDaemon()
 			for {
 				st, err := srv.AcceptStream()
@@ -956,6 +961,10 @@ func (w *sessWorld) main(dir string) {
 	_ = cli.Close()
 	_ = srv.Close()
 	simrt.Sleep(5 * time.Second)
+	if w.acceptorG != nil && !w.acceptorG.Done() && w.on("C11") {
+		w.fail("C11.accept_hang", "AcceptStream is still blocked 5 s after its session was closed")
+		return
+	}
 	if w.on("C14") {
 		w.census("after a graceful close of both ends")
 	}
@@ -1287,7 +1296,8 @@ func (w *sessWorld) writer(ss *sessStream, dir int) {
 		case "sleep":
 			simrt.Sleep(time.Duration(op.N) * time.Millisecond)
 		case "wdeadline":
-			_ = st.SetWriteDeadline(time.Now().Add(time.Duration(op.N) * time.Millisecond))
+			d.wDeadline = time.Now().Add(time.Duration(op.N) * time.Millisecond)
+			_ = st.SetWriteDeadline(d.wDeadline)
 		case "close":
 			w.closeEnd(ss, wend, 0)
 		case "burst":
@@ -1325,6 +1335,7 @@ func (w *sessWorld) writer(ss *sessStream, dir int) {
 			d.m.segs = append(d.m.segs, sg)
 			d.allBytes += int64(n)
 			es.inCall[0]++
+			flushStart := simrt.Now()
 			var err error
 			if op.K == "write" {
 				var wn int
@@ -1373,6 +1384,16 @@ func (w *sessWorld) writer(ss *sessStream, dir int) {
 			es.inCall[0]--
 			now := simrt.Now()
 			simrt.Event("W s%d d%d msg#%d done err=%v fallback=%v", ss.idx, dir, d.msgIdx-1, err, st.inFallbackState)
+			if err == ErrTimeout && w.on("C11") {
+				if d.wDeadline.IsZero() {
+					w.fail("C11.spurious_timeout", "stream %d dir %d: Flush returned a timeout although no write deadline was set", ss.idx, dir)
+				} else if time.Now().Before(d.wDeadline) {
+					w.fail("C11.early_timeout", "stream %d dir %d: Flush timed out %v before its write deadline", ss.idx, dir, time.Until(d.wDeadline))
+				}
+			}
+			if took := now - flushStart; took > 30*time.Second && w.on("C11") && !w.plan.Faulty {
+				w.fail("C11.flush_slow", "stream %d dir %d: Flush took %v (virtual) in a fault-free run", ss.idx, dir, took)
+			}
 			if err == nil {
 				sg.status = 1
 				sg.doneAt = now
